@@ -35,3 +35,25 @@ Definition sec_step (g : group) (s : sec) : group * bool :=
   end.
 
 Definition adds (s : sec) : bool := match s with SBack _ _ | SFront _ _ | SBefore _ _ _ => true | _ => false end.
+
+(* ---------- the list as a traversal sees it: node ids from head through next ---------- *)
+Fixpoint walk_ids (h : list node) (k : nat) (c : option nat) : list nat :=
+  match k, c with
+  | S k', Some n => match nth_error h n with Some nd => n :: walk_ids h k' (nxt nd) | None => [] end
+  | _, _ => []
+  end.
+
+Definition list_ids (g : group) : list nat := walk_ids (heap g) (length (heap g)) (ghead g).
+
+Definition memb (v : nat) (ids : list nat) : bool := existsb (Nat.eqb v) ids.
+
+(* v stands before w in ids *)
+Fixpoint beforeb (ids : list nat) (v w : nat) : bool :=
+  match ids with
+  | [] => false
+  | x :: r => if Nat.eqb x v then memb w r else beforeb r v w
+  end.
+
+(* w is about to be visited: every node visited earlier that is still in the list stands before w *)
+Definition ordered_visit (g : group) (vis : list nat) (w : nat) : bool :=
+  forallb (fun v => negb (memb v (list_ids g)) || beforeb (list_ids g) v w) vis.
